@@ -33,3 +33,5 @@ $M --replace happysimulator/components/industrial/gate_controller.py 'results.ap
                     time=self.now,' 'results.append(
                 Event(
                     time=queued.time,' C07
+# M13 (post-fix round) revert of ddfe000: replenishment time through the float round trip
+$M --replace happysimulator/components/industrial/inventory.py 'time=self.now + self.lead_time,' 'time=self.now.__class__.from_seconds(self.now.to_seconds() + self.lead_time),' C07
